@@ -1,0 +1,15 @@
+//go:build !verif
+
+package verifhook
+
+// Enabled reports if the hooks are compiled in.
+const Enabled = false
+
+// Point is a schedule point: a place where the harness may park the caller.
+func Point(name string, obj any) {}
+
+// Enter marks the beginning of a library critical section on obj.
+func Enter(obj any) {}
+
+// Leave marks the end of a library critical section on obj.
+func Leave(obj any) {}
